@@ -117,7 +117,8 @@ func (e srvEvent) failureName() string {
 type liveSub struct {
 	notifier *rpc.Notifier
 	id       rpc.ID
-	seq      int // number of events recorded when it was created
+	seq      int  // number of events recorded when it was created
+	notified bool // a head has been sent to it
 }
 
 type holdState struct {
@@ -219,6 +220,16 @@ func (n *fakeNode) record(e srvEvent) {
 	}
 }
 
+// freshSubNotified: a head has been sent to a subscription created after the last failure (callers hold n.mu).
+func (n *fakeNode) freshSubNotified() bool {
+	for _, s := range n.subs {
+		if s.seq >= n.lastFail && s.notified {
+			return true
+		}
+	}
+	return false
+}
+
 // freshSubs: live subscriptions created after the last failure (callers hold n.mu).
 func (n *fakeNode) freshSubs() int {
 	k := 0
@@ -240,6 +251,7 @@ func (n *fakeNode) notify(nums []uint64, fresh bool) {
 	subs := make([]*liveSub, 0, len(n.subs))
 	for _, s := range n.subs {
 		subs = append(subs, s)
+		s.notified = true
 	}
 	if len(subs) == 0 {
 		n.nHeadsNoSub++
@@ -417,6 +429,13 @@ func (n *fakeNode) wait(cond func() bool, mode waitMode, watchdog time.Duration)
 				t.Stop()
 			}
 		case <-tk:
+			// the condition may have become true while this goroutine was not running: never announce anything after it
+			n.mu.Lock()
+			ok := cond() || n.fatal || n.streamClosed
+			n.mu.Unlock()
+			if ok {
+				return true
+			}
 			ticks++
 			switch {
 			case mode == waitTail && ticks > 3:
